@@ -630,7 +630,7 @@ static Type *func_params(Token **rest, Token *tok, Type *ty) {
     Token *name = ty2->name;
     Token *name_pos = ty2->name_pos;
 
-    if (ty2->kind == TY_ARRAY) {
+    if (ty2->kind == TY_ARRAY || ty2->kind == TY_VLA) {
       // "array of T" is converted to "pointer to T" only in the parameter
       // context. For example, *argv[] is converted to **argv by this.
       ty2 = pointer_to(ty2->base);
@@ -3895,7 +3895,18 @@ static Token *function(Token *tok, Type *basety, VarAttr *attr) {
   push_scope("__FUNCTION__")->var =
     new_string_literal(fn->name, array_of(ty_char, strlen(fn->name) + 1));
 
+  // Parameters of variably modified type, such as 'int (*m)[n]': the
+  // sizes are computed on entry to the function.
+  Node vla_head = {};
+  Node *vla_cur = &vla_head;
+  for (Type *t = ty->params; t; t = t->next) {
+    vla_cur = vla_cur->next = new_unary(ND_EXPR_STMT, compute_vla_size(t, tok), tok);
+    add_type(vla_cur);
+  }
+
   fn->body = compound_stmt(&tok, tok);
+  vla_cur->next = fn->body->body;
+  fn->body->body = vla_head.next;
   fn->locals = locals;
   leave_scope();
   resolve_goto_labels();
